@@ -17,7 +17,7 @@ func init() {
 	register(&Prop{
 		ID:         "C10",
 		Title:      "Attribute values survive a write/read round trip unchanged",
-		Decided:    "every conversion on the write/read path is total over the ten attribute types and discriminates by presence, not by emptiness: (R1) the v2 SDK→internal conversion has a case for every implementer of the SDK's AttributeValue union (enumerated from the SDK package through go/types) and maps member X to field X; (R2) the v2 internal→SDK conversion and the interpreter's MapToObject have a branch per field of types.Item whose presence test is `F != nil`, never `len(F) != 0` (an empty list, map or binary is a value; for the three set types emptiness tests are accepted because DynamoDB has no empty sets); (R3) the four v1 conversions set all ten fields, each from the same-named source field; (R4) each interpreter object's ToDynamoDB sets exactly the field named like the type tag its Type() returns; (R5) the item-copy helpers and the interpreter's working copies copy every entry unconditionally; (R6) every S and N text stored into any of the three representations, in either direction of either client, comes from the same-named slot through pointer copies only – no call that could trim, format or parse it (the value-origin tracer looks into package-local helpers and treats only the SDK pointer helpers as transparent); (R7) the internal representation encodes the type in which field is non-nil: in every data object's ToDynamoDB and in every member case of the SDK v2 → internal conversions the type-carrying field is provably non-nil (must-non-nil analysis over make/literal/append/phis/helper returns/field invariants), also for the empty string, binary, list and map (sets cannot be empty and are left out); (R8) the key derivation is lossless (= C01.R8): an item written under one number key is not silently replaced by a write to a different number; (R9) the value read back is the value that was written only if neither the stored value nor an earlier read result shares memory with a buffer somebody else can still change: every reference-typed component of every conversion result is owned by the result (= C14.R1).",
+		Decided:    "every conversion on the write/read path is total over the ten attribute types and discriminates by presence, not by emptiness: (R1) the v2 SDK→internal conversion has a case for every implementer of the SDK's AttributeValue union (enumerated from the SDK package through go/types) and maps member X to field X; (R2) the v2 internal→SDK conversion and the interpreter's MapToObject have a branch per field of types.Item whose presence test is `F != nil`, never `len(F) != 0` (an empty list, map or binary is a value; for the three set types emptiness tests are accepted because DynamoDB has no empty sets); (R3) the four v1 conversions set all ten fields, each from the same-named source field; (R4) each interpreter object's ToDynamoDB sets exactly the field named like the type tag its Type() returns; (R5) the item-copy helpers and the interpreter's working copies copy every entry unconditionally; (R6) every S and N text stored into any of the three representations, in either direction of either client, comes from the same-named slot through pointer copies only – no call that could trim, format or parse it (the value-origin tracer looks into package-local helpers and treats only the SDK pointer helpers as transparent); (R7) the internal representation encodes the type in which field is non-nil: in every data object's ToDynamoDB and in every member case of the SDK v2 → internal conversions the type-carrying field is provably non-nil (must-non-nil analysis over make/literal/append/phis/helper returns/field invariants), also for the empty string, binary, list and map (sets cannot be empty and are left out); (R8) the key derivation is lossless (= C01.R8): an item written under one number key is not silently replaced by a write to a different number; (R9) the value read back is the value that was written only if neither the stored value nor an earlier read result shares memory with a buffer somebody else can still change: every reference-typed component of every conversion result is owned by the result (= C14.R1); (R10) in the attribute→object conversion the object built under the presence test of field F carries the tag F (case chains and (predicate, constructor) tables alike) – with R4 (an object of tag F is written back as field F) a value keeps its type through the expression engine.",
 		NotDecided: "numeric notation and precision (C12), set/element equality, nesting depth, and fidelity of values inside each branch (value-level).",
 		Rules: []RuleDef{
 			{ID: "R1", Desc: "v2 SDK→internal: exhaustive over the SDK union, member X ↦ field X (T-TABLE)", Run: c10R1},
